@@ -3,6 +3,8 @@ package main
 import (
 	"context"
 	"fmt"
+	"github.com/brimdata/super/pkg/verifhook"
+	"slices"
 	"sort"
 	"strings"
 	"sync"
@@ -73,6 +75,7 @@ type c12World struct {
 	preIDs  map[string][]int      // branch → value ids before the run
 	loadOf  map[ksuid.KSUID][]int // pre-state load commits → ids (for revert)
 	b1Extra []int                 // ids only on b1 (merge adds these)
+	b1Gone  []int                 // ids of the shared object that b1 deleted (merge removes these)
 	qID     string
 	clock   atomic.Int64
 }
@@ -141,6 +144,21 @@ func c12Setup(ctx context.Context, fileLike bool) (*c12World, error) {
 		return nil, err
 	}
 	w.b1Extra = []int{90, 91}
+	// b1 also deletes the third object it shares with main, so that a merge has
+	// a delete to replay (and to conflict with)
+	if _, err := l.API.Delete(ctx, w.poolID, "b1", []ksuid.KSUID{w.objs[2]}, lk.Msg); err != nil {
+		return nil, err
+	}
+	w.b1Gone = append([]int(nil), w.objVals[w.objs[2]]...)
+	{
+		var keep []int
+		for _, id := range w.preIDs["b1"] {
+			if !slices.Contains(w.b1Gone, id) {
+				keep = append(keep, id)
+			}
+		}
+		w.preIDs["b1"] = keep
+	}
 	w.preMain, err = c12Chain(ctx, l, "p", "main")
 	if err != nil {
 		return nil, err
@@ -151,7 +169,7 @@ func c12Setup(ctx context.Context, fileLike bool) (*c12World, error) {
 
 func (w *c12World) clone() *c12World {
 	c := &c12World{poolID: w.poolID, objs: w.objs, objVals: w.objVals, preMain: w.preMain, preB1: w.preB1,
-		preIDs: w.preIDs, loadOf: w.loadOf, b1Extra: w.b1Extra, qID: w.qID}
+		preIDs: w.preIDs, loadOf: w.loadOf, b1Extra: w.b1Extra, b1Gone: w.b1Gone, qID: w.qID}
 	c.eng = store.New(w.eng.B.Clone(), w.eng.FileLike)
 	return c
 }
@@ -321,6 +339,13 @@ var c12PairAlphabet = []c12Op{
 	{Kind: "drop-pool", Name: "q"},
 	{Kind: "create-branch", Name: "b2"},
 	{Kind: "rename-pool", Name: "q", NewName: "y"},
+	{Kind: "delete", Branch: "main", Objs: []int{2}}, // the object b1 deleted: conflicts with the merge
+}
+
+// c12ConflictPair: merge against an operation on the object the child deleted.
+func c12ConflictPair(a, b c12Op) bool {
+	hits := func(op c12Op) bool { return op.Kind == "delete" && len(op.Objs) == 1 && op.Objs[0] == 2 }
+	return (a.Kind == "merge" && (hits(b) || b.Kind == "merge")) || (b.Kind == "merge" && hits(a))
 }
 
 func c12PoolTableOp(op c12Op) bool {
@@ -328,7 +353,10 @@ func c12PoolTableOp(op c12Op) bool {
 }
 
 func runC12(c *rt.Ctx) {
-	c.Note("rule", "case = 2–4 clients (each its own lake handle, i.e. its own caches, on one shared storage) issuing 1–3 operations each under the operation-level scheduler; (i) exhaustive single-preemption: for ordered pairs (A,B) of operations from a 12-operation alphabet, every schedule 'A runs k storage operations, B runs to completion, A finishes' for every k (quick: all 16 pairs of pool-table operations and a seeded eighth of the others); (ii) random segment schedules with 2–4 preemptions for 3–4 clients; (iii) free-running clients on one shared lake handle (the service's situation) under the race detector; storage with atomic puts and with file semantics; evaluations = schedules executed; non-trivial = schedule in which the second client ran while the first had performed some but not all of its storage operations; distinct by the hash of the executed (client, op kind, path class) sequence")
+	// released zngio buffers are overwritten (H1): lake code that keeps using a
+	// value after the reader has moved on reads garbage deterministically
+	verifhook.SetPoison(true)
+	c.Note("rule", "case = 2–4 clients (each its own lake handle, i.e. its own caches, on one shared storage) issuing 1–3 operations each under the operation-level scheduler; (i) exhaustive single-preemption: for ordered pairs (A,B) of operations from a 13-operation alphabet, every schedule 'A runs k storage operations, B runs to completion, A finishes' for every k (quick: all 16 pairs of pool-table operations, the merge/delete conflict pairs and a seeded eighth of the others); (ii) random segment schedules with 2–4 preemptions for 3–4 clients; (iii) free-running clients on one shared lake handle (the service's situation) under the race detector; storage with atomic puts and with file semantics; evaluations = schedules executed; non-trivial = schedule in which the second client ran while the first had performed some but not all of its storage operations; distinct by the hash of the executed (client, op kind, path class) sequence")
 	c.Note("granularity", "interleavings are explored at storage-operation granularity (every Get/Put/PutIfNotExists/Delete…; on file semantics also every Write); preemptions inside an in-memory critical section are only produced by the free-running stress part")
 	c.Note("assumptions", "clients in different processes share nothing but storage (separate lake.Root per client)\nan operation that fails because the journal's bounded retry loop was starved is a reported failure and is checked as such (no trace)\nporcupine v1.3.0 checks the pool-name table history against a sequential map model")
 	idx := 0
@@ -336,7 +364,7 @@ func runC12(c *rt.Ctx) {
 		for bi := range c12PairAlphabet {
 			ai, bi := ai, bi
 			// quick: every pair of pool-table operations, and a seeded eighth of the rest
-			tablePair := c12PoolTableOp(c12PairAlphabet[ai]) && c12PoolTableOp(c12PairAlphabet[bi])
+			tablePair := c12PoolTableOp(c12PairAlphabet[ai]) && c12PoolTableOp(c12PairAlphabet[bi]) || c12ConflictPair(c12PairAlphabet[ai], c12PairAlphabet[bi])
 			if c.Quick() && !tablePair && int(rt.NewRand(uint64(ai*131+bi)+c.Seed*7).Uint64()%8) != 0 {
 				idx++
 				continue
@@ -708,6 +736,12 @@ func c12Judge(c *rt.Ctx, o *rt.Obs, res *c12Result, what string, preempted bool)
 			if !merged {
 				for _, id := range w.b1Extra {
 					state[id] = true
+				}
+				for _, id := range w.b1Gone {
+					if !state[id] {
+						viol("merge-committed-a-delete-of-an-absent-object", fmt.Sprintf("%s\n%s was committed although value %d of the object b1 deleted was already gone from main", hist(), e.Op, id))
+					}
+					delete(state, id)
 				}
 				merged = true
 			}
